@@ -13,8 +13,9 @@ m = json.load(open('/verif/MANIFEST.json'))
 vs = []
 for c in m['checks']:
     v = subprocess.run(['python3', '/verif/tools/variant_of.py', c['property_id']], capture_output=True, text=True).stdout.strip()
-    if v and v not in vs:
-        vs.append(v)
+    for x in v.split():
+        if x not in vs:
+            vs.append(x)
 print(' '.join(vs))
 PY
 ); do
